@@ -22,6 +22,7 @@ import (
 	"sort"
 	"strings"
 	"testing"
+	"time"
 
 	kit "github.com/openbao/openbao/sdk/v2/helper/verifkit"
 	"github.com/openbao/openbao/sdk/v2/logical"
@@ -127,6 +128,12 @@ func (l *c11Life) opts() vOpts {
 func (l *c11Life) adopt(v *vCore) {
 	v.Core.rawConfig.Store(&server.Config{UnsafeAllowAPIAuditCreation: true})
 	c11InstallProxies(l.t, l.w, v.Core)
+	// Let the lease restore of a restarted core finish before anything else happens: shutting a core
+	// down in the middle of it can hang (restore workers gone, distributor still sending), which is a
+	// liveness matter of the expiration manager and not this property. Bounded; not a verdict.
+	for i := 0; i < 2000 && v.Core.expiration != nil && v.Core.expiration.inRestoreMode(); i++ {
+		time.Sleep(2 * time.Millisecond)
+	}
 }
 
 func (l *c11Life) use(v *vCore) {
@@ -240,10 +247,12 @@ var c11LifeProbes = []string{"read", "write", "kvwrite", "tokencreate", "login"}
 
 // probe sends the probe requests to the core and judges them against the devices the core lists.
 func (l *c11Life) probe(v *vCore, caseID, label string, step int, history []string, seed int64) {
-	l.probeHdr(v, caseID, label, step, history, seed, true)
+	l.probeHdr(v, caseID, label, step, history, seed, true, true)
 }
 
-func (l *c11Life) probeHdr(v *vCore, caseID, label string, step int, history []string, seed int64, withHeader bool) {
+// probeHdr: withHeader = the probes carry a header audited with hmac=true; checkOffered = every listed
+// device is expected to work, so each of them must have been offered every served request.
+func (l *c11Life) probeHdr(v *vCore, caseID, label string, step int, history []string, seed int64, withHeader, checkOffered bool) {
 	r, w, fw := l.r, l.w, l.fw
 	names, viaAPI := l.listed(v)
 	if !viaAPI {
@@ -311,7 +320,7 @@ func (l *c11Life) probeHdr(v *vCore, caseID, label string, step int, history []s
 		case "login":
 			req = &logical.Request{Operation: logical.UpdateOperation, Path: "auth/vcred/login", Data: reqData}
 		}
-		fc := &c11FaultCtx{sc: sc, step: step, st: c11FaultStep{Kind: kind}, faults: []string{label}, info: info}
+		fc := &c11FaultCtx{sc: sc, step: step, st: c11FaultStep{Kind: kind}, info: info}
 		r.Eval(1)
 		r.Count("probe_requests", 1)
 		hv := "hdr" + rng.Canary()
@@ -330,6 +339,9 @@ func (l *c11Life) probeHdr(v *vCore, caseID, label string, step int, history []s
 		if served {
 			r.Count("probe_requests_served", 1)
 			for _, h := range fw.holders {
+				if !checkOffered {
+					break
+				}
 				n := h.Name()[strings.IndexByte(h.Name(), ':')+1:]
 				if l.offered(h, res.ID) {
 					r.Count("listed_device_offered_served_request", 1)
@@ -562,7 +574,7 @@ func (l *c11Life) saltStates(v *vCore, caseBase, opStr string, step int, history
 		for _, hdr := range []bool{true, false} {
 			lbl := "after " + opStr + ", " + what + map[bool]string{true: ", requests carry an HMAC-audited header", false: ", requests carry no audited header"}[hdr]
 			before := r.Get("probe_requests_refused_without_handler")
-			l.probeHdr(v, id, lbl, step, append(append([]string(nil), history...), what), seed, hdr)
+			l.probeHdr(v, id, lbl, step, append(append([]string(nil), history...), what), seed, hdr, false)
 			r.Count("salt_unavailable_states", 1)
 			if n == len(uuids) {
 				r.Count("probes_refused_with_every_salt_unavailable", int(r.Get("probe_requests_refused_without_handler")-before))
